@@ -201,7 +201,7 @@ class TransferFrameDataField:
         self._size = 0
         self.tfdz = tfdz
         allowed_max_len = USLP_TFDF_MAX_SIZE - self.header_len()
-        if self.len() > allowed_max_len:
+        if len(tfdz) > allowed_max_len:
             raise ValueError
 
     @property
